@@ -53,14 +53,18 @@ C05Problems(ev) ==
            \cup (IF LogCoherent(base.alog) THEN {} ELSE {"incoherent issue list"}))
 
 Flags(ev) == \A i \in DOMAIN ev.values : LET f == ev.values[i] IN f.okC /\ f.okPy /\ ("rateOkC" \in DOMAIN f => f.rateOkC /\ f.rateOkPy)
+Flags2(ev) == \A i \in DOMAIN ev.values : LET f == ev.values[i] IN f.ok2C /\ f.ok2Py /\ ("rate2OkC" \in DOMAIN f => f.rate2OkC /\ f.rate2OkPy)
+Sys2Of(sys) == [classes |-> sys.classes, nla |-> sys.nla, nlaDep |-> sys.nlaDep, fault |-> sys.fault, step |-> 1]
 ExpectOk(ev) == \A i \in DOMAIN ev.expect : LET e == ev.expect[i] IN
-                   e.A = Seen(ev.sys, e.name, "A", 6) /\ e.B = Seen(ev.sys, e.name, "B", 6) /\ ((e.name \notin {"u", "w"} /\ Get(ev.sys, e.name).role = "state") => e.rate = Rate(ev.sys, e.name))
+                   e.A = Seen(ev.sys, e.name, "A", 6) /\ e.B = Seen(ev.sys, e.name, "B", 6) /\ e.A2 = Seen(Sys2Of(ev.sys), e.name, "A", 6) /\ e.B2 = Seen(Sys2Of(ev.sys), e.name, "B", 6)
+                   /\ ((e.name \notin {"u", "w"} /\ Get(ev.sys, e.name).role = "state") => e.rate = Rate(ev.sys, e.name) /\ e.rate2 = Rate(Sys2Of(ev.sys), e.name))
 C03Problems(ev) ==
     IF ~ev.run \/ "values" \notin DOMAIN ev THEN (IF ev.run /\ ev.variants[1].type \notin ErrTypes THEN {"generated code was not produced for a valid model"} ELSE {})
     ELSE (IF ev.c.built /\ ev.c.ran THEN {} ELSE {"generated C does not compile / run"})
          \cup (IF ev.py.built /\ ev.py.ran THEN {} ELSE {"generated Python does not run"})
          \cup (IF ExpectOk(ev) THEN {} ELSE {"harness: echoed expectation differs from the specification's"})
          \cup (IF Flags(ev) THEN {} ELSE {"generated code computes a wrong value"})
+         \cup (IF Flags2(ev) THEN {} ELSE {"generated code computes a wrong value after the states and the variable of integration have moved on (second step)"})
          \cup (IF ev.c.residualsOk /\ ev.py.residualsOk THEN {} ELSE {"NLA objective functions do not vanish at the solution"})
          \cup (IF ev.sys.nla # NoneS => (ev.c.residualCount > 0 /\ ev.py.residualCount > 0) THEN {} ELSE {"NLA system not solved through the objective functions"})
 
